@@ -504,6 +504,14 @@ Proof.
   - apply resolve_inv; auto.
 Qed.
 
+Lemma cancel_nth_inv k n s : Inv k s -> Inv k (cancel_nth n s).
+Proof.
+  intros I. unfold cancel_nth. destruct (outst s) as [|x l] eqn:O; [exact I|]. rewrite <- O.
+  set (i := Nat.modulo n (length (outst s))).
+  destruct (nth_error (outst s) i) as [[q|q]|] eqn:N; [exact I| |exact I].
+  apply resolve_inv; auto.
+Qed.
+
 Definition frame (s s' : state) : Prop :=
   length (heap s') = length (heap s) /\ length (disps s') = length (disps s) /\
   forall d' q0, In d' (disps s') -> refers (d_st d') q0 -> exists d, In d (disps s) /\ refers (d_st d) q0.
@@ -539,11 +547,17 @@ Proof.
   destruct (nth_error (outst s) _) as [[q|q]|]; [apply frame_clear|apply frame_same; reflexivity|apply frame_refl].
 Qed.
 
+Lemma cancel_nth_frame n s : frame s (cancel_nth n s).
+Proof.
+  unfold cancel_nth. destruct (outst s) as [|x l] eqn:O; [apply frame_refl|]. rewrite <- O.
+  destruct (nth_error (outst s) _) as [[q|q]|]; [apply frame_refl|apply frame_same; reflexivity|apply frame_refl].
+Qed.
+
 Lemma exec_action_inv k own a s :
   Inv k s -> own_ok own s -> fresh_action a = true ->
   Inv k (exec_action own a s) /\ frame s (exec_action own a s).
 Proof.
-  intros I Ho Hf. destruct a as [| |n|q|ev share kw|ev|h]; cbn [exec_action].
+  intros I Ho Hf. destruct a as [| |n|q|n|ev share kw|ev|h]; cbn [exec_action].
   - destruct own as [q|]; [|split; [exact I|apply frame_refl]].
     split; [apply do_wait_inv; auto|]. destruct (do_wait_frame q true s) as [A B].
     repeat split; try congruence. rewrite A. eauto.
@@ -552,6 +566,7 @@ Proof.
   - split; [apply clear_nth_inv; auto|apply clear_nth_frame].
   - destruct (held q s); [|split; [exact I|apply frame_refl]].
     split; [|apply frame_clear]. apply do_clear_inv; auto. intros x Hin N. apply In_remove_first; auto.
+  - split; [apply cancel_nth_inv; auto|apply cancel_nth_frame].
   - destruct share; [discriminate|]. split; [apply post_inv; auto|].
     destruct (post_frame ev true None (kw_norm kw) s). apply frame_same; auto.
   - split; [apply post_inv; auto|]. destruct (post_frame ev false None [] s). apply frame_same; auto.
@@ -795,6 +810,7 @@ Proof.
   - unfold clear_nth. destruct (outst s) eqn:O; auto. destruct (nth_error _ _) as [[q|q]|]; auto.
     rewrite inpeq_do_clear. reflexivity.
   - destruct (held q s); auto. rewrite inpeq_do_clear. reflexivity.
+  - unfold cancel_nth. destruct (outst s) eqn:O; auto. destruct (nth_error _ _) as [[q|q]|]; auto.
   - unfold post. cbn [negb andb]. sst. destruct (evq s); reflexivity.
   - unfold post. destruct (negb false && _); sst; auto. destruct (evq s); reflexivity.
   - reflexivity.
